@@ -20,6 +20,7 @@ import (
 	enc "github.com/named-data/ndnd/std/encoding"
 	basic "github.com/named-data/ndnd/std/engine/basic"
 	"github.com/named-data/ndnd/std/ndn"
+	"github.com/named-data/ndnd/std/utils"
 	spec "github.com/named-data/ndnd/std/ndn/spec_2022"
 	"github.com/named-data/ndnd/std/object"
 	sec "github.com/named-data/ndnd/std/security"
@@ -203,6 +204,9 @@ func (Engine) Generate(prop string, r *kit.Rand, tier string) *kit.Scenario[Conf
 				o.Obj = 1
 			}
 			o.Mut, o.At, o.Val = facesim.GenMutFix(r, 64, 9000)
+			if sg >= 0 && o.Act == "corruptdata" && r.Chance(0.12) {
+				o.Mut, o.Val = "finalblock", kit.Pick(r, []uint64{0, 1, 1 << 16, 1 << 24, 99_999_998, 99_999_999, 100_000_000, 1<<31 - 1, 1<<63 - 1, 1<<64 - 1})
+			}
 			sc.Ops = append(sc.Ops, o)
 		}
 	}
@@ -892,7 +896,20 @@ func (e Engine) run(ctx *kit.Ctx, sc *kit.Scenario[Config, Op], res *kit.Result,
 						case "delay":
 							at += fl.delay
 						case "corrupt":
-							f = facesim.Mutate(f, fl.op.Mut, fl.op.At, fl.op.Val)
+							if fl.op.Mut == "finalblock" {
+								// a producer (or whoever answers in its place) that announces another segment count: the
+								// same packet, signed again, with FinalBlockId = Val
+								if p, _, err := spec.ReadPacket(enc.NewBufferReader(f)); err == nil && p.Data != nil {
+									cfg := &ndn.DataConfig{ContentType: utils.IdPtr(ndn.ContentTypeBlob), Freshness: p.Data.Freshness(),
+										FinalBlockID: utils.IdPtr(enc.NewSegmentComponent(fl.op.Val))}
+									if ed, err := (spec.Spec{}).MakeData(p.Data.NameV, cfg, p.Data.Content(), signer); err == nil {
+										f = ed.Wire.Join()
+										ctx.Probe("final-block-id-rewritten")
+									}
+								}
+							} else {
+								f = facesim.Mutate(f, fl.op.Mut, fl.op.At, fl.op.Val)
+							}
 							corrupted++
 						case "dup":
 							seq++
